@@ -23,6 +23,8 @@ def cases_for(rng, n, per):
         g = gg.grammar()
         # make sure objects nest: M gets contained objects when possible
         cfg = D.default_cfg(skipws=True)
+        if rng.random() < 0.35:
+            cfg["userclasses"] = True      # spans of user-class objects are prescribed alike
         sg = G.SentenceGen(rng, g)
         has_c = any(r["name"] == "Comment" for r in g["rules"])
         for k in range(per):
@@ -50,6 +52,8 @@ def file_pass(rep, cases, info):
             path = os.path.join(work, f"m{c['id']}.txt")
             with open(path, "w", newline="") as f:
                 f.write(G.text(c["s"]))
+            if i["real"].get("accept") is not True:
+                continue    # the string load already disagrees with the module: judged there
             try:
                 m = b.mm.model_from_file(path)
             except Exception as e:
@@ -83,7 +87,10 @@ def string_filename(rep, cases, info):
         b = cache.get(c["g"], c["cfg"])
         if isinstance(b, Exception):
             continue
-        m = b.mm.model_from_str(G.text(c["s"]))
+        try:
+            m = b.mm.model_from_str(G.text(c["s"]))
+        except Exception:
+            continue        # already judged by judge_cases
         if get_location(m)["filename"] is not None:
             rep.violation(dict(P.describe(c)), "get_location reports a file name for a model loaded from a string")
         else:
@@ -105,6 +112,13 @@ def run(rep):
         P.judge_universe(rep, PID, "kinds", 2)
     n, per = (120, 6) if quick else (1500, 8)
     cases = cases_for(rng, n, per)
+    # nested containment through abstract rules (wrapped alternatives like '(' X ')')
+    from . import c03
+    for c in c03.cases_for(rng, 60 if quick else 600, 6):
+        c["id"] = len(cases)
+        if rng.random() < 0.3:
+            c["cfg"] = dict(c["cfg"], userclasses=True)
+        cases.append(c)
     info, stats = P.judge_cases(rep, PID, cases, label="random-spans")
     stats["file_loads"] = file_pass(rep, cases, info)
     string_filename(rep, cases, info)
